@@ -2,6 +2,7 @@
 from . import rec
 from . import gen
 from . import mig
+from . import mw
 
 
 def _c13(res):
@@ -77,6 +78,7 @@ def _gen_prop(pid):
 
 TABLE = {
     **{pid: {"run": _gen_prop(pid), "replay": gen.replay, "level": "proof"} for pid in GEN},
+    "C20": {"run": mw.run, "replay": mw.replay, "level": "proof"},
     "C18": {"run": mig.run, "replay": mig.replay, "level": "proof"},
     "C11": {"run": _c11, "replay": rec.replay, "level": "proof"},
     "C12": {"run": _c12, "replay": rec.replay, "level": "proof"},
